@@ -7,6 +7,8 @@ must agree (metamorphic oracle), and for the dry/moist classes each must agree w
 the continuous equations, which has no reference profile at all.  With the absolute temperature fixed the
 profile-dependent part of the dry tendency is a polynomial of degree <= 2 in the state, for which the
 depth-2 simplex lattice is unisolvent; one configuration per tier is run to depth 3.
+
+Extensions after the seeded-breakage rounds (DESIGN.md 8.5): States with signal at the highest retained wavenumber l = L-2 in every field and in the moisture fields are included (metamorphic oracle only); the profiles include one with two equal adjacent layers; every profile is also evaluated through ONE long-lived equation object whose reference_temperature field is rebound.
 """
 import itertools
 import numpy as np
